@@ -2703,12 +2703,12 @@ void Validator::ValidatorImpl::addResetOrderMapItem(const VariablePtr &variable,
         return std::find_if(resetOrderMap.begin(), resetOrderMap.end(),
                             [&](const std::pair<VariablePtr, std::vector<int>> &entry) { return entry.first == v; });
     };
+    // The orders are collected per connected variable set: a variable that is equivalent to an earlier one through
+    // other variables belongs to the same entry.
     auto entry = findEntry(variable);
-    size_t i = 0;
-
-    while ((i < variable->equivalentVariableCount()) && (entry == resetOrderMap.end())) {
-        entry = findEntry(variable->equivalentVariable(i));
-        ++i;
+    if (entry == resetOrderMap.end()) {
+        entry = std::find_if(resetOrderMap.begin(), resetOrderMap.end(),
+                             [&](const std::pair<VariablePtr, std::vector<int>> &e) { return areEquivalentVariables(e.first, variable); });
     }
 
     if (entry != resetOrderMap.end()) {
